@@ -7,10 +7,13 @@ import (
 	"github.com/vulcand/oxy/v2/zverif/c10"
 	"github.com/vulcand/oxy/v2/zverif/c14"
 	"github.com/vulcand/oxy/v2/zverif/c17"
+	"github.com/vulcand/oxy/v2/zverif/c19"
 	"github.com/vulcand/oxy/v2/zverif/cb"
 )
 
 func init() {
+	parts["c19"] = c19.Run
+	replays["c19"] = c19.Replay
 	parts["c10"] = c10.Run
 	replays["c10"] = c10.Replay
 	parts["cb"] = cb.Run
